@@ -77,7 +77,7 @@ def run_corr(ctx, binp, corr_broken, seed, n, steps, label):
             break
 
 
-def leg(ctx, corr_broken, with_lean=True):
+def leg(ctx, corr_broken, with_lean=True, thorough_n=600):
     ctx.trusted += TRUSTED
     ctx.gen("e9_dq")
     if with_lean:
@@ -100,7 +100,7 @@ def leg(ctx, corr_broken, with_lean=True):
         run_corr(ctx, binp, corr_broken, d["seed"], d["n"], d["steps"], "replay")
         print("replay of %s on %s: %s" % (ctx.replay_in, REPO, corr_broken or "no disagreement"))
         return
-    run_corr(ctx, binp, corr_broken, ctx.seed, ctx.budget(60, 600), ctx.budget(60, 120), "generated")
+    run_corr(ctx, binp, corr_broken, ctx.seed, ctx.budget(60, thorough_n), ctx.budget(60, 120), "generated")
     rc, out = ctx.run_cmd([binp, "-test.run", "^TestVerifE9DqSyncTimer$", "-test.count=1", "-test.timeout", "120s"], timeout=150)
     if "SYNCTIMER-OK" in out:
         ctx.evaluations += 1
